@@ -109,6 +109,6 @@ HARNESSES += codec_init_harnesses()
 HARNESSES += sd2_harnesses()
 HARNESSES += alac_harnesses()
 HARNESSES += seq_harnesses()
-HARNESSES += [h for h in _load("C14").HARNESSES if h.name == "fileio.ownership"]
+HARNESSES += [h for h in _load("C14").HARNESSES if h.name.startswith("fileio.ownership")]
 META = {"assumptions": ["E-memfile", "E-stdio ghost stream for the ALAC spool file", "allocation never fails (failure of malloc itself is outside this harness)"],
         "outside": ["setters + close (H3)", "SD2 resource fork", "chunked parsers other than the listed AIFF sequences", "the ALAC bit-stream library (contract stub)"]}
